@@ -2427,3 +2427,9 @@ class vecw(top):
             l.append(e[sta:sto])
         return vecw(vec(l))
 
+
+# verification hooks (inactive unless AMOCO_VERIF=1):
+import os as _os
+if _os.environ.get("AMOCO_VERIF") == "1":
+    from amoco import _verif_hooks
+    _verif_hooks.install_expressions(globals())
